@@ -1,7 +1,9 @@
 //! C06 — every emitted packet is a well-formed, length-accurate GSE packet.
 
 use super::sender::*;
-use crate::engine::{GenPart, Property, Stats, Tier};
+use crate::common::*;
+use crate::engine::{EnumPart, GenPart, Property, Stats, Tier};
+use serde_json::Value;
 use proptest::prelude::*;
 
 fn strategy(t: Tier) -> BoxedStrategy<SendCase> {
@@ -10,6 +12,52 @@ fn strategy(t: Tier) -> BoxedStrategy<SendCase> {
 
 fn check(c: &SendCase, st: &mut Stats) -> Result<(), String> {
     run_send_case(c, st, Flags { c06: true, c11: false }).map(|_| ())
+}
+
+// ---- enumerated: every PDU length, maximal / larger-than-frame / MTU-sized buffers -----------------------
+
+const LEN_TOP: u64 = 65541; // 0..=65540: every legal PDU length and the first refused ones
+
+fn sweep_case(t: Tier, i: u64) -> SendCase {
+    let n = sweep_lens(t, LEN_TOP);
+    let len = sweep_len_at(t, LEN_TOP, i % n);
+    let labkind = (i / n) % 4;
+    let prof = i / n / 4;
+    let lab = match labkind {
+        0 => Lab::Six(ALPHA6[0]),
+        1 => Lab::Three(ALPHA3[0]),
+        2 => Lab::Broadcast,
+        _ => Lab::Six(ALPHA6[1]),
+    };
+    let (first, conts, tail_base) = match prof {
+        0 => (BufSpec::Abs(4097), vec![], 4097u16),
+        1 => (BufSpec::Abs(70000), vec![BufSpec::Abs(70000); 20], 4097u16),
+        _ => (BufSpec::Abs(1500), vec![], 1500u16),
+    };
+    let one = |len: u32, first: BufSpec, conts: Vec<BufSpec>, tail_base: u16| SendOne {
+        pdu: Pdu { len, seed: 3 + len },
+        lab,
+        ptype: 0x0600 + ((len as u64 * 7919) % (0x10000 - 0x0600)) as u16,
+        frag_id: (len % 256) as u8,
+        exts: vec![],
+        first,
+        conts,
+        tail_base,
+        tail_span: 1,
+        handmade: None,
+    };
+    let mut sends = vec![];
+    if labkind == 3 {
+        // same label just before, re-use enabled: the swept PDU starts with a substituted label
+        sends.push(one(5, BufSpec::Abs(100), vec![], 100));
+    }
+    sends.push(one(len, first, conts, tail_base));
+    SendCase { reuse: ReuseCfg::Enabled, sends }
+}
+
+fn check_sweep(i: u64, st: &mut Stats) -> Result<(), String> {
+    let c = sweep_case(st.tier, i);
+    run_send_case(&c, st, Flags { c06: true, c11: false }).map(|_| ())
 }
 
 pub fn property() -> Property {
@@ -21,7 +69,17 @@ pub fn property() -> Property {
             "S=0 packets must carry label-type bits 11 (TS 102 606; anchors of C10)",
             "total length is only constrained for packets without extensions (as the property states)",
         ],
-        parts: vec![Box::new(GenPart {
+        parts: vec![
+        Box::new(EnumPart {
+            name: "every-pdu-length-x-label-x-buffer-profile",
+            rule: "PDU lengths 0..=65540 (thorough: every one; quick: 0..=4200, 65300..=65540 and every 13th between) x {6-byte, 3-byte, broadcast, substituted 6-byte label} x buffers {4097 throughout, 70000 throughout, 1500 throughout}; every call of the session judged by the same packet oracle",
+            size: |t| sweep_lens(t, LEN_TOP) * 4 * 3,
+            exhaustive: |t| t == Tier::Thorough,
+            check: check_sweep,
+            describe: |t, i| serde_json::to_value(sweep_case(t, i)).unwrap_or(Value::Null),
+            required_classes: &["complete", "first-fragment", "intermediate", "end", "first-buffer>4097", "cont-buffer>4097", "substituted"],
+        }),
+        Box::new(GenPart {
             name: "sender-sessions",
             rule: "see property rule",
             cases: (480_000, 12_000_000),
